@@ -195,16 +195,49 @@ def csr_configs(tier, seed, salt=0):
         {"node": {"t": "bridge", "aw": 10, "regs": [[8, "rw", 0], [8, "rw", 0xff], [8, "r", 0x100], [16, "rw", 0x101], [8, "rw", 0x3fe]]},
          "name": "bank1", "addr": None},
         {"node": {"t": "mux", "aw": 10, "regs": [[8, "r", 0x100], [24, "rw", 0x2fd], [8, "w", 0x3ff]]}, "name": "bank2", "addr": None}]}})
+    # windows added in an order that is NOT the address order (explicit addresses, each a multiple of the window size): descending,
+    # and interleaved with an implicitly placed one
+    cfgs.append({"dw": 8, "root": {"t": "dec", "aw": 7, "align": 0, "children": [
+        {"node": {"t": "bridge", "aw": 3, "regs": [[8, "rw", None], [16, "rw", None], [8, "r", 7]]}, "name": "hi", "addr": 0x30},
+        {"node": {"t": "bridge", "aw": 4, "regs": [[8, "rw", None], [24, "w", 9]]}, "name": "mid", "addr": 0x10},
+        {"node": {"t": "mux", "aw": 2, "regs": [[8, "rw", None], [8, "r", 3]]}, "name": "lo", "addr": 0x04},
+        {"node": {"t": "dec", "aw": 4, "align": 0, "children": [
+            {"node": {"t": "bridge", "aw": 2, "regs": [[8, "rw", 2]]}, "name": "q", "addr": 0x8},
+            {"node": {"t": "bridge", "aw": 3, "regs": [[16, "rw", 5]]}, "name": None, "addr": 0x0}]}, "name": "nest", "addr": 0x20}]}})
     for c in cfgs:
         c["directed"] = True          # hand-written hierarchies are valid by construction: a refusal is a violation (must_accept)
     n = 12 if tier == "quick" else 300
+    rng2 = random.Random(seed * 13 + salt)        # a separate stream: the hierarchies themselves stay what they were
     for _ in range(n):
         dw = rng.choice([8, 8, 16, 32])
         node, aw = gen_csr_tree(rng, dw, rng.randint(1, 3), 6)
         if node["t"] != "dec":
             node = {"t": "dec", "aw": aw + 1, "align": 0, "children": [{"node": node, "name": "only", "addr": None}]}
+        shuffle_windows(node, rng2)
         cfgs.append({"dw": dw, "root": node})
     return cfgs
+
+
+def shuffle_windows(node, rng):
+    """with probability 1/3 per decoder: give its windows explicit addresses (multiples of the window size, laid out without overlap)
+    and add them in a random order, so that insertion order and address order differ"""
+    if node.get("t") != "dec":
+        return
+    for ch in node["children"]:
+        shuffle_windows(ch["node"], rng)
+    chs = node["children"]
+    if (len(chs) < 2 or rng.random() > 1 / 3 or node.get("align") or
+            any(ch.get("addr") is not None or ch.get("align_to") is not None or "aw" not in ch["node"] for ch in chs)):
+        return
+    at = 0
+    for ch in sorted(chs, key=lambda ch: -ch["node"]["aw"]):
+        ch["addr"] = at
+        at += 1 << ch["node"]["aw"]
+    if at > (1 << node["aw"]):
+        for ch in chs:
+            ch["addr"] = None
+        return
+    rng.shuffle(chs)
 
 
 def wb_configs(tier, seed):
@@ -229,6 +262,16 @@ def wb_configs(tier, seed):
     cfgs.append({"aw": 3, "dw": 16, "g": 8, "align": 0, "children": [
         {"t": "sram", "size": 4, "name": "ram"},
         {"t": "csr", "node": {"t": "bridge", "aw": 1, "regs": [[8, "rw", None], [8, "r", None]]}, "name": None}]})
+    # subordinates added in descending address order (explicit addresses, multiples of the window size)
+    cfgs.append({"aw": 7, "dw": 8, "g": 8, "align": 0, "children": [
+        {"t": "sram", "size": 16, "name": "a", "addr": 0x20},
+        {"t": "sram", "size": 16, "name": "b", "addr": 0x10},
+        {"t": "csr", "node": {"t": "bridge", "aw": 3, "regs": [[8, "rw", None], [16, "rw", 5]]}, "name": "c", "addr": 0x08},
+        {"t": "sram", "size": 8, "name": None, "addr": 0x00}]})
+    cfgs.append({"aw": 5, "dw": 32, "g": 8, "align": 0, "children": [
+        {"t": "csr", "node": {"t": "bridge", "aw": 4, "regs": [[32, "rw", None], [8, "rw", 9]]}, "name": "regs", "addr": 0x40},
+        {"t": "sram", "size": 32, "name": "ram", "addr": 0x20},
+        {"t": "sram", "size": 16, "name": "rom", "writable": False, "addr": 0x00}]})
     for c in cfgs:
         c["directed"] = True
     n = 6 if tier == "quick" else 150
